@@ -123,9 +123,11 @@ func vfRunRequest(ep int, o vfReqOpts) *vfReqResult {
 	if ep >= vfEPGetInbox {
 		method = "GET"
 	}
+	other := "" // the header that must NOT matter for this method
 	if classify {
 		method = vfString("method")
 		hdr = vfString("header")
+		other = vfString("other-header")
 	}
 	res.method = method
 	wantMethod := "POST"
@@ -162,9 +164,9 @@ func vfRunRequest(ep int, o vfReqOpts) *vfReqResult {
 	}
 	var req *http.Request
 	if ep <= vfEPPostOutbox {
-		req = vfRequest(method, hdr, "", u, body)
+		req = vfRequest(method, hdr, other, u, body)
 	} else {
-		req = vfRequest(method, "", hdr, u, nil)
+		req = vfRequest(method, other, hdr, u, nil)
 	}
 	switch ep {
 	case vfEPPostInbox:
